@@ -248,7 +248,9 @@ impl Check for MatchCheck {
             run.ops.push(Op::new("enode_pattern").i(rng.below(64) as i64).i(rng.below(8) as i64).i(rng.below(4) as i64));
         }
         // a multi-pattern: root equation plus equations for some of its children
-        for _ in 0..rng.range(1, 2) {
+        // (not in the wide-pattern runs: unifying two invocations of a 13-slot class in `multi_ematch` is a
+        // performance cliff of the library - minutes per call - and there is no budget seam in that loop)
+        for _ in 0..(if run.get("wide_pattern") != 0 { 0 } else { rng.range(1, 2) }) {
             let cands: Vec<&Tm> = terms.iter().filter(|t| !t.kids.is_empty()).collect();
             if cands.is_empty() {
                 break;
